@@ -195,10 +195,27 @@ def rne_div(num, den):
         return num
     if num.lo < 0:
         raise EngineLimit("rne_div of possibly negative value")
-    q = num.t / den
-    r = num.t % den
-    up = z3.Or(2 * r > den, z3.And(2 * r == den, q % 2 == 1))
-    return mk_lint(z3.If(up, q + 1, q), num.lo // den, num.hi // den + 1)
+    ex = core.cur()
+    key = ('rne', num.t.get_id(), den)
+    if key in ex.path_memo:
+        return ex.path_memo[key]
+    # definitional extension with fresh variables (always satisfiable): num = q*den + r, 0 <= r < den, q = 2t + p
+    n = ex.fresh_id()
+    q, r, t, p = z3.Int('q!%d' % n), z3.Int('r!%d' % n), z3.Int('t!%d' % n), z3.Int('p!%d' % n)
+    ex._add(z3.And(num.t == q * den + r, r >= 0, r < den, q == 2 * t + p, p >= 0, p <= 1, q >= 0))
+    ex._add(z3.And(q >= num.lo // den, q <= num.hi // den))
+
+    def define(pairs, num_t=num.t, den=den, q=q, r=r, t=t, p=p):
+        nv = z3.simplify(z3.substitute(num_t, *pairs))
+        if not z3.is_int_value(nv):
+            return
+        qq, rr = divmod(nv.as_long(), den)
+        pairs.extend([(q, z3.IntVal(qq)), (r, z3.IntVal(rr)), (t, z3.IntVal(qq // 2)), (p, z3.IntVal(qq % 2))])
+    ex.defs.append(((q, r, t, p), define))
+    up = z3.Or(2 * r > den, z3.And(2 * r == den, p == 1))
+    res = LInt(z3.If(up, q + 1, q), num.lo // den, num.hi // den + 1)
+    ex.path_memo[key] = res
+    return res
 
 
 def _pow2_ratio(num, den, exp2):
@@ -220,34 +237,62 @@ def round_to_double(num, den, exp2=0):
         return SFloat(int(m * (1 << 53)), 1, e - 53)
     if num.lo < 0:
         raise EngineLimit("negative float")
+    ex = core.cur()
+    memo = ex.path_memo
+    key = ('r2d', num.t.get_id(), den, exp2)
+    if key in memo:
+        return memo[key]
+    r = _round_to_double(ex, num, den, exp2)
+    memo[key] = r
+    return r
+
+
+def _round_to_double(ex, num, den, exp2):
     if num == 0:
         return SFloat(0, 1, 0)
     lo = max(num.lo, 1)
-    emin = (Fraction(lo, den)).numerator.bit_length() - (Fraction(lo, den)).denominator.bit_length() - 1
-    emax = (Fraction(num.hi, den)).numerator.bit_length() - (Fraction(num.hi, den)).denominator.bit_length() + 1
-    E = None
-    for e in range(emin, emax + 1):
-        # is num/den < 2^(e+1) ?
-        if e + 1 >= 0:
-            c = num < den * (1 << (e + 1))
-        else:
-            c = num * (1 << (-(e + 1))) < den
-        if c:
-            E = e
-            break
-    if E is None:
-        raise EngineLimit("binade search failed")
-    # (the chain established num/den >= 2^E by the failed tests below E, or by emin)
-    if E >= 0:
-        core.cur().assume(num >= den * (1 << E)) if E == emin else None
-    else:
-        core.cur().assume(num * (1 << (-E)) >= den) if E == emin else None
+
+    def ilog2(fr):
+        e = fr.numerator.bit_length() - fr.denominator.bit_length()
+        while Fraction(2) ** e > fr:
+            e -= 1
+        while Fraction(2) ** (e + 1) <= fr:
+            e += 1
+        return e
+    emin = ilog2(Fraction(lo, den))
+    emin_exact = num.lo >= 1
+    emax = ilog2(Fraction(num.hi, den))
+    if emax - emin <= MERGE_BINADES:
+        # few candidate binades: no fork - the mantissa is an if-then-else over the candidates, expressed relative to
+        # the lowest exponent (an SFloat is an exact rational, its numerator need not be normalised)
+        t = None
+        for E in range(emax, emin - 1, -1):
+            n2, d2 = _pow2_ratio(num, den, 52 - E)
+            mE = rne_div(n2, d2)
+            mt = _it(mE) * (1 << (E - emin))
+            if t is None:
+                t = mt
+            else:
+                below = (num < den * (1 << (E + 1))) if E + 1 >= 0 else (num * (1 << (-(E + 1))) < den)
+                t = z3.If(core._b(below), mt, t) if not isinstance(below, bool) else (mt if below else t)
+        m = LInt(t, 1 << 52, 1 << (53 + emax - emin))
+        ex._add(z3.And(m.t >= m.lo, m.t <= m.hi)) if emin_exact else None
+        return SFloat(m, 1, emin - 52 + exp2)
+    # many candidate binades: one structural fork per binade; the binade constraint is assumed
+    E = ex.choose('binade', list(range(emin, emax + 1))) if emax > emin else emin
+    lo_c = (num >= den * (1 << E)) if E >= 0 else (num * (1 << (-E)) >= den)
+    hi_c = (num < den * (1 << (E + 1))) if E + 1 >= 0 else (num * (1 << (-(E + 1))) < den)
+    ex.assume(s_and(lo_c, hi_c))
     sh = 52 - E
     n2, d2 = _pow2_ratio(num, den, sh)
     m = rne_div(n2, d2)
-    if m == (1 << 53):
-        return SFloat(1 << 52, 1, E + 1 - 52 + exp2)
+    if isinstance(m, LInt):
+        m = LInt(m.t, max(m.lo, 1 << 52), min(m.hi, 1 << 53))      # sound under the binade constraint just assumed
+        ex._add(z3.And(m.t >= m.lo, m.t <= m.hi))                   # implied fact; bounds help the LIA solver a lot
     return SFloat(m, 1, E - 52 + exp2)
+
+
+MERGE_BINADES = 0
 
 
 def float_parts(c):
@@ -318,6 +363,8 @@ class SFloat:
         # b concrete: exact product = a.num*b.num / (a.den*b.den) * 2^(sum)
         if b.num == 0:
             return SFloat(0, 1, 0)
+        if b.den == 1 and b.num & (b.num - 1) == 0:          # power of two: exact
+            return SFloat(a.num, a.den, a.exp2 + b.exp2 + b.num.bit_length() - 1)
         return round_to_double(a.num * b.num, a.den * b.den, a.exp2 + b.exp2)
 
     __rmul__ = __mul__
@@ -330,6 +377,8 @@ class SFloat:
             raise ZeroDivisionError("float division by zero")
         if isinstance(self.num, int):
             return self._lift(self.concrete() / o.concrete())
+        if o.den == 1 and o.num & (o.num - 1) == 0:          # power of two: exact
+            return SFloat(self.num, self.den, self.exp2 - o.exp2 - (o.num.bit_length() - 1))
         return round_to_double(self.num * o.den, self.den * o.num, self.exp2 - o.exp2)
 
     def __rtruediv__(self, o):
